@@ -9,6 +9,7 @@ C02-g    loop progress in the shaping modules (rule C01-f restricted to them)
 C02-t    script tag tables agree: every tag dispatched to the Indic shaper is in the domain of its tag tables
 """
 import borrows
+import indexing
 import loops
 import reach
 import recursion
@@ -193,4 +194,5 @@ def check(run, fx, tier, floors=True):
     c02_d(run, fx)
     c02_e(run, fx)
     loops.rule_loops(run, fx, "C02-g", floors=False, select=in_scope)
+    indexing.rule_index(run, fx, "C02-i", floors, select=in_scope, floor_n=150)
     c02_t(run, fx)
